@@ -16,6 +16,9 @@ import time
 import warnings
 
 
+BALANCE_LIMIT = 200     # cycles of one micro-op above which the (slow) balancer loop is not run
+
+
 def synth_operand(isa, o):
     from osaca.parser.memory import MemoryOperand
     from osaca.parser.register import RegisterOperand
@@ -117,7 +120,16 @@ def cost_entry(mm, sem, entry):
                 # micro-op loop really runs over this entry's assignment
                 form.throughput = 1.0
             kernel = [form]
-            sem.assign_optimal_throughput(kernel)
+            uops = form.port_uops if isinstance(form.port_uops, list) else []
+            if any(isinstance(u[0], (int, float)) and u[0] > BALANCE_LIMIT for u in uops):
+                # the balancer makes int(cycles*100) steps per micro-op (hsw WBINVD: 272381 cycles -> minutes);
+                # only its index computation is exercised for such entries
+                from operator import itemgetter
+                for u in uops:
+                    itemgetter(*[mm.get_ports().index(p) for p in list(u[1])])(form.port_pressure)
+                how += "-nobalance"
+            else:
+                sem.assign_optimal_throughput(kernel)
             assert len(form.port_pressure) == len(mm["ports"])
         return how, None
     except Exception as e:
@@ -128,13 +140,37 @@ def sweep(arch, which, loader):
     mm, sem = loader(arch)
     es = entries_of(mm)
     idx = range(len(es)) if which == "all" else which
-    fails, hows = [], {"matched": 0, "shadowed": 0, "synth": 0}
+    fails, hows = [], {}
     for i in idx:
         how, err = cost_entry(mm, sem, es[i])
-        hows[how] += 1
+        hows[how] = hows.get(how, 0) + 1
         if err:
             fails.append([i, how, err])
     return {"arch": arch, "n": len(list(idx)), "hows": hows, "fails": fails}
+
+
+def sweep_isa(arch, loader):
+    """every entry of the ISA DB used by `arch`: an instruction synthesised from its pattern goes through
+    the real ISASemantics.assign_src_dst (lookup + _apply_found_ISA_data + load/store flags)"""
+    from osaca.parser.instruction_form import InstructionForm
+    mm, sem = loader(arch)
+    isa = mm.get_ISA()
+    im = sem._isa_model
+    es = entries_of(im)
+    fails, hows = [], {}
+    for i, e in enumerate(es):
+        how = "synth"
+        try:
+            ops = [synth_operand(isa, o) for o in e.operands]
+            form = InstructionForm(mnemonic=e.mnemonic, operands=ops, line="synth", line_number=1)
+            how = "matched" if im.get_instruction(e.mnemonic, ops) is e else "shadowed"
+            sem.assign_src_dst(form)
+            if how == "shadowed":
+                sem._apply_found_ISA_data(e, ops)
+        except Exception as ex:
+            fails.append([i, how, "%s: %s" % (type(ex).__name__, str(ex)[:200])])
+        hows[how] = hows.get(how, 0) + 1
+    return {"arch": arch, "isa": isa, "n": len(es), "hows": hows, "fails": fails}
 
 
 if __name__ == "__main__":
@@ -147,7 +183,10 @@ if __name__ == "__main__":
         return mm, ArchSemantics(mm, path_to_yaml=os.path.join(data_dir, "isa", mm.get_ISA().lower() + ".yml"))
     t = time.time()
     try:
-        res = sweep(arch, "all" if which == "all" else [int(x) for x in which.split(",") if x], loader)
+        if which == "isa":
+            res = sweep_isa(arch, loader)
+        else:
+            res = sweep(arch, "all" if which == "all" else [int(x) for x in which.split(",") if x], loader)
         res["secs"] = round(time.time() - t, 1)
         res["ok"] = True
     except Exception as e:
